@@ -380,11 +380,49 @@ def substRegular (c : Circ) (i : Nat) (m : Circ) : Bool :=
 def resolvePre (lib : Lib) (c : Circ) : Bool :=
   foldG (resolveStep lib) (fun c n => match lib.find (c.nobj n).kind with | some m => substPre c n m | none => true) c c.nodes
 
-/-- structural well-formed use of `resolve_tlib_cells`: every substitution it performs is a regular structural one
-(checked on the circuit as it is when the substitution starts; nothing inside a substitution is evaluated) -/
+/-! ### open output pins: the predicted set of occupied output pins of every copied fork is downward closed -/
+/-- the instance pin of the implementation output with line `l` is connected -/
+def outConnected (c : Circ) (i : Nat) (sh : Shape) (l : Nat) : Bool :=
+  (sh.outLines.zip (padTo (c.nobj i).outs sh.outLines.length)).any fun pr => pr.1 == l && pr.2.isSome
+
+/-- the implementation node gets an image in the host (every node that is not a port; ports for which a fork is made) -/
+def hasImage (m : Circ) (n : Nat) : Bool := !(inIos m n) || forkCond m n
+
+/-- output pin `p` of the image of implementation node `n` holds a line after `substitute`: the implementation line there
+is copied (its reader has an image) or leads to an output port whose instance pin is connected; for a port that is read
+inside the implementation, the one extra pin `len(n.outs)` holds the host line iff the port's instance pin is connected -/
+def setPin (c : Circ) (i : Nat) (m : Circ) (sh : Shape) (n p : Nat) : Bool :=
+  if p < (m.nobj n).outs.length then
+    match pin (m.nobj n).outs p with
+    | none => false
+    | some l => match (m.lobj l).reader with
+      | none => false
+      | some r => hasImage m r || outConnected c i sh l
+  else
+    p == (m.nobj n).outs.length && inIos m n && decide ((m.nobj n).outs.length > 0) &&
+      match pin (m.nobj n).ins 0 with
+      | some l => outConnected c i sh l
+      | none => false
+
+/-- the image of `n` is a fork -/
+def isForkImage (m : Circ) (n : Nat) : Bool := if inIos m n then forkCond m n else (m.nobj n).kind == FORK
+
+/-- open output pins leave no gap: for every implementation node whose image is a fork, the occupied pins form an
+initial segment -/
+def substOpenOK (c : Circ) (i : Nat) (m : Circ) : Bool :=
+  match implShape m with
+  | none => true
+  | some sh =>
+    m.nodes.all fun n => !(isForkImage m n) ||
+      (List.range ((m.nobj n).outs.length + 1)).all fun p => !(setPin c i m sh n p) ||
+        (List.range p).all fun q => setPin c i m sh n q
+
+/-- structural well-formed use of `resolve_tlib_cells`: every substitution it performs is a structural one with
+`substRegular` or `substOpenOK` (checked on the circuit as it is when the substitution starts; nothing inside a
+substitution is evaluated) -/
 def resolveStatic (lib : Lib) (c : Circ) : Bool :=
   foldG (resolveStep lib) (fun c n => match lib.find (c.nobj n).kind with
-    | some m => substStatic c n m && substRegular c n m
+    | some m => substStatic c n m && (substRegular c n m || substOpenOK c n m)
     | none => true) c c.nodes
 
 /-! ## histories with the three operations -/
